@@ -9,6 +9,10 @@ Family C  2-3 channels, 1-2 scalers each, 1-2 raw buffers of different widths an
 Family D  one channel whose scalers live in several raw buffers listed in non-adjacent order
 Family E  a later segment restates the indexes (same, scaler records permuted, other row count) or switches channels to
           'no data' in 1-2 buffer layouts, carried-over or new object list, followed by a metadata-less segment
+Family S  a segment that is complete by its own offsets but whose raw data stops EVERY possible number of bytes short of its
+          last chunk, in NON-final position (1-2 buffers of differing widths and lengths), followed by a segment that reuses the
+          indexes and a metadata-less one: everything before the short chunk and everything after the segment must be exact
+          (and, for one buffer, the rows of the short chunk that are wholly there); eager == lazy == windows == chunk streams
 Oracle: bytes at chunk_base + buffer_base + row*width + offset of a fixed non-repeating filler pattern (phase rotated by
 VERIF_SEED), decoded independently; lazy windows and chunk streams must equal slices of the eager result.
 """
@@ -187,6 +191,72 @@ def fam_t():
                 yield ('T', [G.seg(objs, chunks=chunks, big=big), G.seg([], meta=False, chunks=2, big=big)])
 
 
+def fam_s():
+    """'less data than expected' in the middle of a file: every byte count by which the last chunk of the first segment can be short"""
+    for widths, na, nb in (([8, 2], 2, 3), ([3, 8], 2, 2), ([4], 3, 3), ([5], 1, 1)):
+        for chunks in (1, 2):
+            for big in (False, True):
+                sa = [(3, 0, 0, 0, 0), (0, 0, widths[0] - 1, 0, 1)]
+                sb = [(3, len(widths) - 1, 0, 0, 0)]
+                nb_ = nb if len(widths) > 1 else na
+                objs = [(A, F.daqmx_enc(na, sa, widths), nscales(sa)), (B, F.daqmx_enc(nb_, sb, widths), nscales(sb))]
+                chunk_bytes = widths[0] * na + (widths[1] * nb if len(widths) > 1 else 0)
+                for short in range(1, chunk_bytes):
+                    first = G.seg(objs, chunks=chunks, big=big)
+                    first['short'] = short
+                    yield ('S', [first, G.seg([(A, ['SAME']), (B, ['SAME'])], newlist=False, chunks=1, big=big),
+                                 G.seg([], meta=False, chunks=2, big=big)])
+
+
+def check_short(hist, seed):
+    """-> (n, problems) for a family-S file.  The format does not say what an incomplete chunk in the middle of a file means, so the
+    oracle claims only what the property does: values before the short chunk and values of the later segments are the bytes at
+    their declared places, nothing is taken from outside the segment (single buffer: the short chunk contributes a prefix of its
+    rows, only rows that are wholly present), and every way of reading agrees with the eager read."""
+    data, _i, layout, ref = G.encode(hist, seed=seed, ref=G.interpret(hist, seed=seed, lenient=True, filler_phase=seed))
+    first = hist[0]
+    widths = first['objects'][0]['enc'][1]['widths']
+    nbuf = len(widths)
+    present = layout[0]['end'] - layout[0]['data_start']
+    chunk_bytes = (present + first['short']) // first['chunks']
+    c_full = present // chunk_bytes
+    avail = present - c_full * chunk_bytes
+    n, bad = 1, []
+    o = H.observe(data, lazy=False)
+    if o[0] != 'ok':
+        return n, [('short-raised', 'eager read raised %s: %s' % (o[1], o[2]))]
+    for path, val in o[1]['data'].items():
+        per_chunk = ref.seg_counts[0].get(path, 0) // first['chunks']
+        prefix = c_full * per_chunk
+        suffix = sum(ref.seg_counts[si].get(path, 0) for si in range(1, len(hist)))
+        items = val[1].items() if val[0] == 'scalers' else [(None, val)]
+        for sid, arr in items:
+            fullv = ref.scaler_values[path][sid if sid is not None else sorted(ref.scaler_values[path])[0]]
+            got_n, got_b = arr[1], arr[2]
+            isz = len(fullv[0])
+            p_ = got_n - prefix - suffix
+            what = '%s scaler %s (short by %d bytes, %d complete chunks)' % (path, sid, first['short'], c_full)
+            if o[1]['len'][path] != got_n:
+                bad.append(('short-len', '%s: len(channel)=%d but %d values' % (what, o[1]['len'][path], got_n)))
+            if p_ < 0 or p_ > per_chunk:
+                bad.append(('short-count', '%s: %d values, expected between %d and %d' % (what, got_n, prefix + suffix, prefix + suffix + per_chunk)))
+                continue
+            if got_b[:prefix * isz] != b''.join(fullv[:prefix]):
+                bad.append(('short-prefix', '%s: values of the complete chunks differ' % what))
+            if suffix and got_b[-suffix * isz:] != b''.join(fullv[-suffix:]):
+                bad.append(('short-suffix', '%s: values of the following segments differ (%s expected %s)' % (
+                    what, H._short(got_b[-suffix * isz:]), H._short(b''.join(fullv[-suffix:])))))
+            if nbuf == 1:
+                if p_ > avail // widths[0]:
+                    bad.append(('short-invented', '%s: %d values from a chunk of which only %d whole rows exist' % (what, p_, avail // widths[0])))
+                elif got_b[prefix * isz:(prefix + p_) * isz] != b''.join(fullv[prefix:prefix + p_]):
+                    bad.append(('short-partial', '%s: rows of the incomplete chunk are not its bytes' % what))
+    if bad:
+        return n, bad[:4]
+    n2, bad2 = check_file(hist, seed, exact=False)
+    return n + n2, bad2
+
+
 def check_truncated(hist, seed):
     """-> (n, problems): every cut of the last segment, eager and lazy, prefix oracle (complete rows only)"""
     from .c06 import observe_cut, judge
@@ -208,8 +278,8 @@ def check_truncated(hist, seed):
     return n, bad
 
 
-def check_file(hist, seed, windows=True):
-    """-> (n_checks, list of (kind, message))"""
+def check_file(hist, seed, windows=True, exact=True):
+    """-> (n_checks, list of (kind, message)); exact=False: no comparison with the reference (family S), differential only"""
     data, _i, layout, ref = G.encode(hist, seed=seed, ref=G.interpret(hist, seed=seed, lenient=True, filler_phase=seed))
     bad = []
     n = 0
@@ -217,7 +287,7 @@ def check_file(hist, seed, windows=True):
     n += 1
     if o[0] != 'ok':
         return n, [('raised', 'eager read raised %s: %s' % (o[1], o[2]))]
-    why = H.compare_with_ref(o[1], ref)
+    why = H.compare_with_ref(o[1], ref) if exact else None
     if why:
         bad.append(('eager-differs', why))
     o2 = H.observe(data, lazy=True)
@@ -284,7 +354,7 @@ def _worker(item):
     fam, hists, seed = item
     res = {'counters': {'layouts': 0, 'checks': 0, 'nontrivial': 0}, 'outcomes': {}, 'violations': [], 'samples': []}
     for h in hists:
-        n, bad = check_truncated(h, seed) if fam == 'T' else check_file(h, seed)
+        n, bad = check_truncated(h, seed) if fam == 'T' else check_short(h, seed) if fam == 'S' else check_file(h, seed)
         res['counters']['layouts'] += 1
         res['counters']['checks'] += n
         res['counters']['nontrivial'] += 1
@@ -304,7 +374,7 @@ def _worker(item):
 
 def run(ctx):
     from ..run import merge
-    allh = list(fam_a()) + list(fam_b()) + list(fam_c(ctx.tier)) + list(fam_t()) + list(fam_d()) + list(fam_e())
+    allh = list(fam_a()) + list(fam_b()) + list(fam_c(ctx.tier)) + list(fam_t()) + list(fam_d()) + list(fam_e()) + list(fam_s())
     items = []
     step = 40
     for famname in sorted(set(f for f, _h in allh)):
@@ -320,13 +390,15 @@ def run(ctx):
     cov = {'evaluations': c['checks'], 'layouts': c['layouts'], 'families': fams, 'distinct_nontrivial': c['nontrivial'],
            'rule': 'distinct DAQmx layouts (parameter tuples), all data-bearing; evaluations = whole-file reads + lazy windows + chunk streams compared',
            'outcomes': m['outcomes'], 'samples': m['samples'][:3], 'exhaustive': True,
-           'vacuity_failures': [] if all(fams.get(k) for k in 'ABCT') else ['a family is empty']}
+           'vacuity_failures': [] if all(fams.get(k) for k in 'ABCTS') else ['a family is empty']}
     return cov, m['violations']
 
 
 def replay(case):
     if case.get('family') == 'T':
         n, bad = check_truncated(case['history'], case.get('seed', 0))
+    elif case.get('family') == 'S':
+        n, bad = check_short(case['history'], case.get('seed', 0))
     else:
         n, bad = check_file(case['history'], case.get('seed', 0))
     if bad:
